@@ -1161,7 +1161,10 @@ func run(c *lib.Ctx) {
 		fmt.Printf("all sets done in %v\n", time.Since(t0))
 	}
 
+	r.rotationPhase()
+
 	// ---- floors: a run that saw too little is broken, not a pass
+	c.Floor("rotation_probes", 8)
 	c.Floor("sets_started", int64(len(tasks)*9/10))
 	c.Floor("handshakes_ok", 1000)
 	c.Floor("refusals_matching_oracle", 200)
